@@ -8,7 +8,7 @@ FUNCS = ["torchdata/nodes/loader.py:Loader", "torchdata/nodes/loader.py:LoaderIt
          "torchdata/stateful_dataloader/stateful_dataloader.py:StatefulDataLoader.__iter__",
          "torchdata/stateful_dataloader/stateful_dataloader.py:StatefulDataLoader.state_dict",
          "torchdata/stateful_dataloader/stateful_dataloader.py:StatefulDataLoader.load_state_dict"]
-RULE = ("random API call sequences (length <= 14) over {iter, next x j, exhaust, state_dict, load_state_dict(any earlier state)} on one Loader object over "
+RULE = ("random API call sequences (length <= 14) over {iter, next x j, exhaust, state_dict, load_state_dict(any earlier state), new Loader object} over "
         "random pipelines (incl. epoch-dependent SamplerWrapper), restart_on_stop_iteration true/false; every outcome compared with the Gallina Loader model "
         "and with a list-based Python reference (epochs as lists, a cursor, an optional pending state); non-trivial = at least one load and one state_dict and "
         ">= 2 iter; distinct = distinct (pipeline, op sequence)")
@@ -29,9 +29,12 @@ def gen_ops(rng, L):
             ops += [["next"]] * rng.randint(1, 3)
         elif r < 0.65 and have_it:
             ops += [["next"]] * (L + 1)          # exhaust
-        elif r < 0.85:
+        elif r < 0.8:
             ops.append(["state"])
             nsaved += 1
+        elif r < 0.87:
+            ops.append(["fresh"])        # a new Loader object (same pipeline); earlier states stay loadable
+            have_it = False
         elif nsaved:
             ops.append(["load", rng.randrange(nsaved)])
         else:
@@ -40,13 +43,30 @@ def gen_ops(rng, L):
     return ops
 
 
+def gen_template(rng, L):
+    a, b = rng.randint(0, min(L, 4)), rng.randint(1, 4)
+    N = lambda k: [["next"]] * k
+    t = rng.choice([
+        [["iter"]] + N(a) + [["state"], ["fresh"], ["state"], ["load", 0], ["iter"]] + N(b),      # state_dict(); load; iter
+        [["iter"]] + N(a) + [["state"], ["load", 0], ["state"], ["iter"]] + N(b),                  # state between load and iter
+        [["iter"]] + N(L + 1) + [["state"], ["fresh"], ["load", 0], ["iter"]] + N(b),              # end-of-epoch state
+        [["iter"]] + N(L) + [["state"], ["fresh"], ["load", 0], ["iter"]] + N(b) + [["state"], ["fresh"], ["load", 1], ["iter"]] + N(b),
+        [["state"], ["iter"]] + N(a) + [["state"], ["iter"]] + N(b),                               # state before iter: no double start
+        [["state"], ["state"], ["iter"], ["next"], ["iter"]] + N(b),
+        [["iter"]] + N(a) + [["state"], ["iter"]] + N(b) + [["load", 0], ["next"], ["iter"]] + N(b),   # old iterator keeps going after load
+        [["iter"]] + N(a) + [["state"], ["fresh"], ["load", 0], ["load", 0], ["iter"]] + N(b) + [["load", 0], ["iter"]] + N(b),
+    ])
+    return [list(o) for o in t]
+
+
 def gen_cases(rng, tier, drift):
     n = 600 if tier == "quick" and not drift else 8000
     cases = []
     for _ in range(n):
         p = ni.gen_well_typed_pipe(rng, max_depth=rng.choice([0, 1, 2, 3]), threads=rng.random() < 0.3)
         L = max(len(ni.ref_sem(p, e)) for e in range(4))
-        cases.append(dict(pipe=p, restart=rng.random() < 0.7, ops=gen_ops(rng, L)))
+        ops = gen_template(rng, L) if rng.random() < 0.35 else gen_ops(rng, L)
+        cases.append(dict(pipe=p, restart=rng.random() < 0.7, ops=ops))
     return cases
 
 
@@ -116,6 +136,8 @@ def run_impl(c):
             rsaved.append(ref.state())
         elif o[0] == "load":
             ref.load(rsaved[o[1]])
+        elif o[0] == "fresh":
+            ref = RefLoader(lambda e: ni.ref_sem(p, e), restart)
     kinds = [o[0] for o in ops]
     # D15: an epoch in which the USER requested nothing but the library pulled an item itself
     idle = idle_epoch(ops)
@@ -136,7 +158,9 @@ def idle_epoch(ops):
     """True iff some iterator handed out by iter() (or created by state_dict()) was replaced by the next iter() without a next() on it."""
     requested = None
     for o in ops:
-        if o[0] == "iter" or (o[0] == "state" and requested is None):
+        if o[0] == "fresh":
+            requested = None
+        elif o[0] == "iter" or (o[0] == "state" and requested is None):
             if requested is False:
                 return True
             requested = False
